@@ -589,6 +589,8 @@ def run(ctx):
             break
         prog = progen.random_program(rng, features=FEATURES, p_raise=0.45, kinds=ALL_KINDS)
         case = {"prog": prog}
+        if rng.random() < 0.15:
+            prog["rtw"] = True      # @run_test_with(RunTest) on the test method: the runner is made through that door
         r = rng.random()
         if r < 0.15:
             case["runner"] = "sync"
